@@ -26,6 +26,8 @@ def main():
     chk = harness.Check(a.pid.upper(), tier, seed, getattr(mod, "REPLAYERS", {}))
     try:
         code = mod.run(chk, only=a.only)
+    except harness.StopEarly as e:
+        code = chk.finish(explanation=f"run stopped early: {e}", rule="see the check's normal evidence for the rule")
     except Exception:  # noqa
         import traceback
 
